@@ -94,7 +94,7 @@ CHECKS["C01"] = dict(
          "signed-iff-both-signed extension, signed/unsigned comparison and division), statement terms are true exactly when the "
          "statement holds, and whatever model the solver returns for the hard terms, the values read back satisfy every hard "
          "statement, lie in their types and enum fields hold declared values. Three corners outside the fragment are refuted with "
-         "witnesses. Tie per call: the multiset of hard terms handed to Boolector (recording proxy) equals the model's lowering of "
+         "witnesses. Values are written rand set by rand set (Rand/Randset.v): the assembled assignment takes every field from its own set's solution and satisfies every statement once every set's solution satisfies that set's. Tie per call: the multiset of hard terms handed to Boolector (recording proxy) equals the model's lowering of "
          "the enabled statements; the returned values are judged by the integer semantics evaluated in Coq.",
     note=SOLVER_NOTE + "Premise: a model returned by Boolector satisfies the asserted terms. Single objects and object trees over "
          "scalar/enum fields; lists, foreach, dist, soft are the subject of C04, C15, C05.",
@@ -103,9 +103,10 @@ CHECKS["C01"] = dict(
 CHECKS["C02"] = dict(
     text="Theorems (Coq, closed; the solver is a parameter with soundness / completeness premises): if some assignment of the "
          "random fields satisfies every hard statement the modelled call never ends in SolveFailure, and whatever a call returns is "
-         "such an assignment; soft statements contribute no hard term. Tie per call: outcome class (returned / SolveFailure / other "
+         "such an assignment; soft statements contribute no hard term; the code solves rand set by rand set (Rand/Randset.v transcribes RandInfoBuilder's grouping): every statement lies in exactly one rand set together with all the fields it refers to, rand sets share no field, an unsatisfiable rand set makes the whole system unsatisfiable and per-set solutions assemble into a solution of the whole system - so failing at the first unsatisfiable set is failing exactly when the system is unsatisfiable. Tie per call: outcome class (returned / SolveFailure / other "
          "exception) is compared with satisfiability decided independently of Boolector by enumerating every assignment of the "
-         "random fields under the integer semantics inside Coq (<= 2^13 assignments), plus the term-level correspondence of C01.",
+         "random fields under the integer semantics inside Coq (<= 2^13 assignments), plus the term-level correspondence of C01 and, "
+         "per recorded solver instance, that no rand set of the model was split over instances.",
     note=SOLVER_NOTE + "Premises: Boolector sound and complete on the asserted terms. Systems with undefined operations "
          "(division by zero) or outside the typed fragment get no verdict.",
     technique="Coq proof (abstract sound+complete solver) + outcome vs. exhaustive enumeration of assignments evaluated in Coq",
@@ -114,9 +115,14 @@ CHECKS["C03"] = dict(
     text="Theorems (Coq, closed): the code's used-rand marking equals the specification of 'random in this call' (root, or "
          "declared random with rand_mode on and so every ancestor below the root); nothing below a non-random composite is random; "
          "the read-back leaves every non-random field unchanged whatever the solver answers; a non-random field is presented to the "
-         "solver as the constant of its current value. Tie per call on object trees with rand_mode histories: leaves that changed, "
-         "leaves presented as variables / constants and the constants' values are compared with the model.",
-    note=SOLVER_NOTE + "Lists / mutable rangelists are exercised by C04.",
+         "solver as the constant of its current value; the solved-for flag and the solver node of a field do not outlive the call "
+         "(Rand/Flags.v: after any sequence of calls that return, fail or raise, appends and constructions, nothing is flagged; "
+         "a field outside the call's roots is never flagged during it; an appended element starts unflagged). Tie per call on "
+         "object trees with rand_mode histories: leaves that changed, leaves presented as variables / constants and the constants' "
+         "values are compared with the model; after every operation the workers read the flags and nodes of every field model "
+         "(must be idle); free-standing calls and rangelist histories; a public-API stream for lists inside sub-objects that are "
+         "not random in the parent's call (content and length must be kept).",
+    note=SOLVER_NOTE + "Scalar-list aggregates / mutable lists are exercised by C04.",
     technique="Coq proof over object-tree model + per-call differential correspondence (frame, variable/constant flags, terms)",
     ref="DESIGN.md §3 C03")
 CHECKS["C07"] = dict(
@@ -208,7 +214,9 @@ CHECKS["C16"] = dict(
          "whatever its with-block nesting and wherever it raises, leaves the five stacks as deep as it found them; every API "
          "call (construction, randomize, randomize_with block, free-standing block) started in any state with any fault point, "
          "satisfiable or not, restores the depths; after any history of calls with any fault points the shared state is idle "
-         "again (for expr_l: provided __init__ code and callbacks write no bare constraint expression - refuted without). Tie: "
+         "again (for expr_l: provided __init__ code and callbacks write no bare constraint expression - refuted without); after a "
+         "call that fails, or raises while being prepared or in a callback, no field model is flagged as solved-for or holds a "
+         "solver node (Rand/Flags.v). Tie: "
          "random histories with probes in __init__ (incl. a sub-object's), constraint bodies, with-block bodies and callbacks; an "
          "exception is injected at a chosen probe, calls are made unsatisfiable; the stacks seen at every probe and the way "
          "every call ends are compared with the model. Oracles on the real objects: no field keeps a solver variable, no "
